@@ -10,12 +10,14 @@ Property theorems only.
   bloat     `queue_bounded`, `total_memory_bounded` (code as it is): per peer ≤ blockLimit queued blocks, in total ≤ peers × blockLimit,
             every one within [h − maxUncleDist, h + maxQueueDist] of the chain height h read when it was accepted; each block is one
             message, so at most `ProtocolMaxMsgSize` bytes (C15.size_gate).
-            `announces_bounded` (REPAIRED variant only: the timer case counts the fetch it starts): ≤ hashLimit pending
-            announcements per peer. FALSE OF THE CODE AS IT IS (finding FGD1): `forgetHash` lowers the counter for a pending fetch
-            that was never counted, the counter goes negative (`code_counter_goes_negative`) and the limit is lifted by as much
-            (`code_limit_lifted`); what holds of the code is `announce_counter_bounded` (the COUNTER stays ≤ hashLimit).
-  no leak   `counters_consistent`: in every reachable state the per-peer counters equal the number of that peer's entries — the
-            queue side for the code as it is, the announce side for the repaired variant; `code_announce_counter_inconsistent`.
+            `announces_bounded` (code as it is, since the repair of finding FGD1: the timer case counts the fetch it starts): per
+            peer ≤ hashLimit pending announcements (waiting in f.announced or being fetched); `announces_bounded_of_counting` is the
+            same for every variant that counts. FALSE OF THE TREE BEFORE THE REPAIR (variant `beforeFGD1`): `forgetHash` lowered the
+            counter for a pending fetch that was never counted, the counter went negative (`beforeFGD1_counter_goes_negative`) and
+            the limit was lifted by as much (`beforeFGD1_limit_lifted`); `code_limit_holds`: the same input on the code as it is.
+            `announce_counter_bounded` (the COUNTER stays ≤ hashLimit) holds of every variant.
+  no leak   `counters_consistent` (code as it is): in every reachable state BOTH per-peer counters equal the number of that peer's
+            entries; `counters_consistent_of` per variant flag; `beforeFGD1_announce_counter_inconsistent`.
   blame     `only_offender_dropped`: dropPeer is called only by the goroutine of `insert`, with the origin of the entry it
             imports, when that block's parent is known and validateBlock refused it (not when insertChain fails: follows the code).
   C16       `never_imports_unqueued` / `import_in_height_order`: insertChain is handed only an entry that is in f.queued, popped
@@ -55,13 +57,15 @@ theorem notify_case_in_code :
        "f.announced[notification.hash] = append(f.announced[notification.hash], notification)", "if len(f.announced) == 1 {",
        "f.reschedule(fetch)", "}"] := by decide
 
-/-- the timer case moves a due group to `f.fetching` after `forgetHash` and does NOT raise the counter (`code.countFetching`) -/
+/-- the timer case moves a due group to `f.fetching` after `forgetHash` and RAISES the counter of the announcer it fetches from
+    right after storing the fetch (`code.countFetching`: the repair of finding FGD1) — the working tree is the variant `repaired`,
+    not `beforeFGD1`. If the increment disappears again this theorem fails, and so does every theorem below stated for `code`. -/
 theorem timer_case_in_code :
     FeTimerDueShape =
       ["if time.Since(announces[0].time) > arriveTimeout-gatherSlack {", "announce := announces[rand.Intn(len(announces))]",
        "f.forgetHash(hash)", "if f.getBlock(hash) == nil {", "request[announce.origin] = append(request[announce.origin], hash)",
-       "f.fetching[hash] = announce", "}", "}"] ∧
-    FeTimerCountsFetching = false ∧ code = ⟨false, true, true⟩ := by decide
+       "f.fetching[hash] = announce", "f.announces[announce.origin]++", "}", "}"] ∧
+    FeTimerCountsFetching = true ∧ code = repaired ∧ code ≠ beforeFGD1 := by decide
 
 theorem forget_in_code :
     FeForgetHashShape =
@@ -122,49 +126,68 @@ example : Reach code (run code {} [.enqueue 1 ⟨5, 2, 0, true, true⟩, .enqueu
 theorem announce_counter_bounded {v : Variant} {s : St} (hr : Reach v s) (p : Nat) : s.announces p ≤ (FeHashLimit : Int) :=
   (reach_inv hr).ale p
 
-/-- REPAIRED variant (the timer case counts the fetch it starts): per peer at most hashLimit pending announcements
-    (waiting in f.announced or being fetched). Not a theorem about the code as it is: see `code_limit_lifted`. -/
-theorem announces_bounded {v : Variant} {s : St} (hr : Reach v s) (hv : v.countFetching = true) (p : Nat) :
+/-- every variant in which the timer case counts the fetch it starts: per peer at most hashLimit pending announcements
+    (waiting in f.announced or being fetched). Not a theorem without the premise: see `beforeFGD1_limit_lifted`. -/
+theorem announces_bounded_of_counting {v : Variant} {s : St} (hr : Reach v s) (hv : v.countFetching = true) (p : Nat) :
     cntA s.announced p + cntA s.fetching p ≤ FeHashLimit := by
   have hi := reach_inv hr
   have h1 := hi.acons hv p
   have h2 := hi.ale p
   omega
 
+/-- the code as it is (fact `FeTimerCountsFetching`, true since the repair of finding FGD1): whatever any number of peers send, in
+    whatever order, a peer never has more than hashLimit pending announcements (waiting in f.announced or being fetched). -/
+theorem announces_bounded {s : St} (hr : Reach code s) (p : Nat) :
+    cntA s.announced p + cntA s.fetching p ≤ FeHashLimit :=
+  announces_bounded_of_counting hr rfl p
+
+example : Reach code (run code {} [.notify 1 7 0, .tick 401, .timer 0]) ∧
+    (run code {} [.notify 1 7 0, .tick 401, .timer 0]).fetching.length = 1 :=
+  ⟨.step _ (.step _ (.step _ (.init [] 0))), by decide⟩
+
 /-! ### no leak -/
 
-/-- the per-peer counters equal the number of that peer's entries in every reachable state: `f.queues` for every variant that
-    keeps forgetBlock's decrement (the code), `f.announces` for the variant that counts fetches (the repair) -/
-theorem counters_consistent {v : Variant} {s : St} (hr : Reach v s) (p : Nat) :
+/-- per variant: `f.queues` equals the number of that peer's queued entries in every variant that keeps forgetBlock's decrement,
+    `f.announces` the number of its pending announcements in every variant that counts fetches -/
+theorem counters_consistent_of {v : Variant} {s : St} (hr : Reach v s) (p : Nat) :
     (v.decOnForget = true → s.queues p = (cntQ s.queued p : Nat)) ∧
     (v.countFetching = true → s.announces p = ((cntA s.announced p + cntA s.fetching p : Nat) : Int)) :=
   ⟨fun h => (reach_inv hr).qcons h p, fun h => (reach_inv hr).acons h p⟩
 
+/-- the code as it is: in every reachable state BOTH per-peer counters equal the number of that peer's entries — nothing leaks
+    and nothing is under-counted after any forget / failed import / expiry (the announce half since the repair of FGD1) -/
+theorem counters_consistent {s : St} (hr : Reach code s) (p : Nat) :
+    s.queues p = (cntQ s.queued p : Nat) ∧ s.announces p = ((cntA s.announced p + cntA s.fetching p : Nat) : Int) :=
+  ⟨(counters_consistent_of hr p).1 rfl, (counters_consistent_of hr p).2 rfl⟩
+
 theorem queue_counter_consistent_in_code {s : St} (hr : Reach code s) (p : Nat) : s.queues p = (cntQ s.queued p : Nat) :=
-  (counters_consistent hr p).1 rfl
+  (counters_consistent hr p).1
 
-/-- FINDING FGD1, the code as it is: one announcement that is fetched and never delivered (notify, 401 ms, timer, 5001 ms, any
-    wake-up) leaves the peer's counter at −1 with nothing pending — every such round lowers it by one more. -/
-theorem code_counter_goes_negative :
-    let s := run code {} [.notify 1 7 0, .tick 401, .timer 0, .tick 5001]
-    s.announces 1 = -1 ∧ s.announced = [] ∧ s.fetching = [] := by decide
+/-- FINDING FGD1 (fixed), the tree before the repair: one announcement that is fetched and never delivered (notify, 401 ms, timer,
+    5001 ms, any wake-up) left the peer's counter at −1 with nothing pending — every such round lowered it by one more.
+    The code as it is ends the same round at 0. -/
+theorem beforeFGD1_counter_goes_negative :
+    (let s := run beforeFGD1 {} [.notify 1 7 0, .tick 401, .timer 0, .tick 5001]
+     s.announces 1 = -1 ∧ s.announced = [] ∧ s.fetching = []) ∧
+    (let s := run code {} [.notify 1 7 0, .tick 401, .timer 0, .tick 5001]
+     s.announces 1 = 0 ∧ s.announced = [] ∧ s.fetching = []) := by decide
 
-theorem code_announce_counter_inconsistent :
-    ∃ s, Reach code s ∧ s.announces 1 ≠ ((cntA s.announced 1 + cntA s.fetching 1 : Nat) : Int) :=
-  ⟨run code {} [.notify 1 7 0, .tick 401, .timer 0], .step _ (.step _ (.step _ (.init [] 0))), by decide⟩
+theorem beforeFGD1_announce_counter_inconsistent :
+    ∃ s, Reach beforeFGD1 s ∧ s.announces 1 ≠ ((cntA s.announced 1 + cntA s.fetching 1 : Nat) : Int) :=
+  ⟨run beforeFGD1 {} [.notify 1 7 0, .tick 401, .timer 0], .step _ (.step _ (.step _ (.init [] 0))), by decide⟩
 
 set_option maxRecDepth 100000 in
-/-- …and the limit is lifted by as much: a peer whose counter stands at −k is granted hashLimit + k pending announcements
+/-- …and the limit was lifted by as much: a peer whose counter stands at −k is granted hashLimit + k pending announcements
     (here k = 2 after two unanswered fetches, then hashLimit + 2 announcements of distinct hashes are all stored). -/
-theorem code_limit_lifted :
-    let s := run code {} ([.notify 1 7 0, .notify 1 8 0, .tick 401, .timer 0, .tick 5001] ++
+theorem beforeFGD1_limit_lifted :
+    let s := run beforeFGD1 {} ([.notify 1 7 0, .notify 1 8 0, .tick 401, .timer 0, .tick 5001] ++
       (List.range (FeHashLimit + 2)).map (fun i => Ev.notify 1 (100 + i) 5402))
     cntA s.announced 1 = FeHashLimit + 2 := by decide
 
 set_option maxRecDepth 100000 in
-/-- the same input under the repair: the counter is back at 0 and the flood is cut at hashLimit -/
-theorem repaired_limit_holds :
-    let s := run repaired {} ([.notify 1 7 0, .notify 1 8 0, .tick 401, .timer 0, .tick 5001] ++
+/-- the same input on the code as it is: the counter is back at 0 and the flood is cut at hashLimit -/
+theorem code_limit_holds :
+    let s := run code {} ([.notify 1 7 0, .notify 1 8 0, .tick 401, .timer 0, .tick 5001] ++
       (List.range (FeHashLimit + 2)).map (fun i => Ev.notify 1 (100 + i) 5402))
     cntA s.announced 1 = FeHashLimit := by decide
 
@@ -342,9 +365,10 @@ theorem old_fetch_forgotten (s : St) (h : Nat) (hn : (s.fetching.map (·.hash)).
 
 /-- PARTIAL (composition over the whole timer case and over several groups is shown on an instance, not for every state):
     an announced hash nobody delivers is requested once it is arriveTimeout − gatherSlack old and forgotten at the first
-    wake-up after fetchTimeout — here: announced at 0, timer at 401 ms, any event at 5001 ms; nothing is left, in both variants. -/
+    wake-up after fetchTimeout — here: announced at 0, timer at 401 ms, any event at 5001 ms; nothing is left (code as it is,
+    and the tree before the repair of FGD1 alike: the defect was in the counter, not in the lists). -/
 theorem announcement_expires_partial :
-    (∀ v ∈ [code, repaired],
+    (∀ v ∈ [code, beforeFGD1],
       let s1 := run v {} [.notify 1 7 0, .notify 2 7 3, .notify 2 8 10, .tick 401, .timer 1]
       let s2 := step v s1 (.tick 5001)
       s1.announced.map (·.hash) = [8] ∧ s1.fetching.map (·.hash) = [7] ∧ s2.fetching = [] ∧ s2.announced.map (·.hash) = [8]) ∧
